@@ -72,3 +72,87 @@ package dvid
 //@   ensures len(s) >= 5 && (s[0] >> 3) & 3 == 1 && crc32(s[5:]) != le32(s, 1) ==> result2 != nil
 //@   ensures len(s) > 0 && (s[0] >> 3) & 3 == 0 && (!uncompress || s[0] >> 5 == 0) ==> result2 == nil && uint8(result1) == s[0] >> 5 && len(result0) == len(s) - 1 && rangeeq(result0, 0, s, 1, len(s) - 1)
 //@   ensures len(s) >= 5 && (s[0] >> 3) & 3 == 1 && crc32(s[5:]) == le32(s, 1) && (!uncompress || s[0] >> 5 == 0) ==> result2 == nil && uint8(result1) == s[0] >> 5 && len(result0) == len(s) - 5 && rangeeq(result0, 0, s, 5, len(s) - 5)
+
+// ---- spatial keys (C18) ----
+
+//@ func Point3d.ToZYXBytes
+//@   prop C18
+//@   ensures len(result) == 12 && fresh(result)
+//@   ensures be32(result, 0) == zyx32(p[2]) && be32(result, 4) == zyx32(p[1]) && be32(result, 8) == zyx32(p[0])
+
+//@ func Point3d.FromZYXBytes
+//@   prop C18 C20
+//@   requires p != nil
+//@   modifies p[*]
+//@   ensures len(zyx) != 12 <==> result != nil
+//@   ensures result == nil ==> zyx32(p[2]) == be32(zyx, 0) && zyx32(p[1]) == be32(zyx, 4) && zyx32(p[0]) == be32(zyx, 8)
+
+//@ func IndexZYX.Bytes
+//@   prop C18
+//@   requires i != nil
+//@   ensures len(result) == 12 && fresh(result)
+//@   ensures be32(result, 0) == zyx32(i[2]) && be32(result, 4) == zyx32(i[1]) && be32(result, 8) == zyx32(i[0])
+
+//@ func IndexZYX.IndexFromBytes
+//@   prop C18 C20
+//@   requires i != nil
+//@   modifies i[*]
+//@   ensures len(b) != 12 <==> result != nil
+//@   ensures result == nil ==> zyx32(i[2]) == be32(b, 0) && zyx32(i[1]) == be32(b, 4) && zyx32(i[0]) == be32(b, 8)
+
+//@ func verifLemmaZYXRoundTrip
+//@   prop C18
+//@   lemma
+//@   ensures err == nil && q[0] == p[0] && q[1] == p[1] && q[2] == p[2]
+
+//@ func verifLemmaZYXOrder
+//@   prop C18
+//@   lemma
+//@   ensures (p[2] < q[2] || (p[2] == q[2] && (p[1] < q[1] || (p[1] == q[1] && p[0] < q[0])))) <==> bytesult(a, 0, b, 0, 12)
+//@   ensures (p[0] == q[0] && p[1] == q[1] && p[2] == q[2]) <==> rangeeq(a, 0, b, 0, 12)
+
+// ---- run-length encoded sparse volumes (C18) ----
+
+//@ func RLE.Within
+//@   prop C18
+//@   requires rlewf(rle)
+//@   ensures result == inrle(rle, pt[0], pt[1], pt[2])
+
+//@ func RLE.Intersects
+//@   prop C18
+//@   requires rlewf(rle) && rlewf(rle2) && rle.length >= 1 && rle2.length >= 1
+//@   ensures result == (exists x int32 :: inrle(rle, x, rle.start[1], rle.start[2]) && inrle(rle2, x, rle.start[1], rle.start[2]))
+
+//@ func RLE.Excise
+//@   prop C18
+//@   requires rlewf(rle) && rlewf(rle2) && rle.length >= 1 && rle2.length >= 1
+//@   ensures result == nil <==> !(exists x int32 :: inrle(rle, x, rle.start[1], rle.start[2]) && inrle(rle2, x, rle.start[1], rle.start[2]))
+//@   ensures result != nil ==> len(result) <= 2 && fresh(result)
+//@   ensures result != nil ==> samerow(rle, rle2) && (len(result) >= 1 ==> samerow(result[0], rle)) && (len(result) >= 2 ==> samerow(result[1], rle))
+//@   ensures result != nil ==> len(result) == ite(rle2.start[0] > rle.start[0], 1, 0) + ite(int64(rle2.start[0]) + int64(rle2.length) < int64(rle.start[0]) + int64(rle.length), 1, 0)
+//@   ensures result != nil && rle2.start[0] > rle.start[0] ==> result[0].start[0] == rle.start[0] && result[0].length == rle2.start[0] - rle.start[0]
+//@   ensures result != nil && int64(rle2.start[0]) + int64(rle2.length) < int64(rle.start[0]) + int64(rle.length) ==> int64(result[len(result)-1].start[0]) == int64(rle2.start[0]) + int64(rle2.length) && int64(result[len(result)-1].length) == int64(rle.start[0]) + int64(rle.length) - int64(rle2.start[0]) - int64(rle2.length)
+//@   ensures result != nil && len(result) >= 1 ==> rlewf(result[0]) && result[0].length >= 1
+//@   ensures result != nil && len(result) >= 2 ==> rlewf(result[1]) && result[1].length >= 1 && int64(result[0].start[0]) + int64(result[0].length) < int64(result[1].start[0])
+
+//@ func RLE.Less
+//@   prop C18
+//@   ensures result == (rle.start[2] < rle2.start[2] || (rle.start[2] == rle2.start[2] && (rle.start[1] < rle2.start[1] || (rle.start[1] == rle2.start[1] && rle.start[0] < rle2.start[0]))))
+
+//@ func RLE.MarshalBinary
+//@   prop C18
+//@   ensures result1 == nil && len(result0) == 16 && fresh(result0)
+//@   ensures le32(result0, 0) == uint32(rle.start[0]) && le32(result0, 4) == uint32(rle.start[1]) && le32(result0, 8) == uint32(rle.start[2]) && le32(result0, 12) == uint32(rle.length)
+
+//@ func RLE.UnmarshalBinary
+//@   prop C18 C20
+//@   requires rle != nil
+//@   modifies rle.*
+//@   ensures len(b) != 16 <==> result != nil
+//@   ensures result == nil ==> uint32(rle.start[0]) == le32(b, 0) && uint32(rle.start[1]) == le32(b, 4) && uint32(rle.start[2]) == le32(b, 8) && uint32(rle.length) == le32(b, 12)
+
+//@ func verifLemmaRLERoundTrip
+//@   prop C18
+//@   lemma
+//@   ensures err == nil && out.start[0] == in.start[0] && out.start[1] == in.start[1] && out.start[2] == in.start[2] && out.length == in.length
+
